@@ -32,11 +32,31 @@ HELPERS = {
 }
 # analysis configuration: the experimental transient mode is outside every property; reuse_internal_data is the
 # documented, explicit opt-in to carry state between calls (C07 covers it), so purity is analysed for its default
-FOLD_OPTIONS = {"transient": False, "reuse_internal_data": False}
+FOLD_NAMES = ("transient", "reuse_internal_data")
+FOLD_OPTIONS = {}
+
+
+def load_fold_options():
+    """the opt-in options are folded to the value the *current* `default_options` gives them: purity is claimed for the
+    defaults, so a default that silently turns the opt-in on puts the state-carrying path back into the analysed flow"""
+    tree, path = kpy2lean.read_module("pf/pipeflow_setup.py")
+    FOLD_OPTIONS.clear()
+    for st in tree.body:
+        if isinstance(st, ast.Assign) and isinstance(st.targets[0], ast.Name) and st.targets[0].id == "default_options" \
+                and isinstance(st.value, ast.Dict):
+            for k, v in zip(st.value.keys, st.value.values):
+                if isinstance(k, ast.Constant) and k.value in FOLD_NAMES and isinstance(v, ast.Constant) and isinstance(v.value, bool):
+                    FOLD_OPTIONS[k.value] = v.value
+    missing = [k for k in FOLD_NAMES if k not in FOLD_OPTIONS]
+    if missing:
+        raise kpy2lean.TranslateError("%s: default_options gives no boolean default for %s" % (path, missing))
+    if FOLD_OPTIONS["transient"] is not False:
+        raise kpy2lean.TranslateError("%s: the transient mode is on by default; the purity analysis does not cover it" % path)
 
 
 class Scanner:
     def __init__(self):
+        load_fold_options()
         self.funcs = {}
         for rel in MODULES:
             tree, path = kpy2lean.read_module(rel)
